@@ -59,7 +59,7 @@ class TEnum(Ty):
 class TAny(Ty):
     """opaque immutable values with equality only (uninterpreted sort)"""
     kind = 'any'
-    def __init__(self, name): self.name = name; self.key = 'Any[%s]' % name
+    def __init__(self, name, truthy=None): self.name = name; self.key = 'Any[%s]' % name; self.truthy = truthy
     def sort(self):
         if self.key not in _sort_cache:
             _sort_cache[self.key] = z3.DeclareSort(self.name)
@@ -374,5 +374,7 @@ def truth(v):
     if isinstance(ty, TEnum):
         if ty.intvalued: return ty.value_term(v.t) != 0
         return z3.BoolVal(True)
+    if isinstance(ty, TAny) and ty.truthy == 'uninterpreted':
+        return z3.Function('truthy_' + ty.name, sort_of(ty), z3.BoolSort())(v.t)
     if isinstance(ty, (TRef, TRec, TAny)) or ty is TExc: return z3.BoolVal(True)
     raise Unsupported('truthiness of %r' % ty)
